@@ -16,6 +16,9 @@
 #include <unistd.h>
 
 static void on_alarm(int){ const char m[] = " TIMEOUT\n"; ssize_t r = write(1, m, sizeof m - 1); (void)r; _exit(3); }
+// budget in seconds of CPU time of this process (robust against a loaded machine), with a wall-clock fallback of ten times that
+#include <sys/time.h>
+static void verif_budget(unsigned s){ struct itimerval it; it.it_interval.tv_sec = 0; it.it_interval.tv_usec = 0; it.it_value.tv_sec = s; it.it_value.tv_usec = 0; setitimer(ITIMER_PROF, &it, nullptr); alarm(10 * s); }
 
 static std::string clean(std::string w){ for (char& ch : w) if (ch==' '||ch=='|'||ch=='\n') ch='_'; return w.substr(0, 200); }
 
@@ -36,12 +39,12 @@ static void dump_params(const global_simulation_parameters& g, const std::vector
 
 int main(){
     std::string line;
-    std::signal(SIGALRM, on_alarm);
+    std::signal(SIGALRM, on_alarm); std::signal(SIGPROF, on_alarm);
     while (std::getline(std::cin, line)){
         if (line.empty()) continue;
         std::istringstream in(line);
         std::string mode; in >> mode;
-        std::cout.flush(); alarm(60);
+        std::cout.flush(); verif_budget(60);
         try {
             if (mode == "RT"){
                 tissue_case t = read_tissue(in);
@@ -96,7 +99,7 @@ int main(){
             } else std::cout << "FATAL unknown mode\n";
         } catch (const std::exception& e){ std::cout << "EXC " << clean(e.what()) << "\n"; }
         catch (...){ std::cout << "EXCOTHER\n"; }
-        alarm(0);
+        verif_budget(0);
     }
     return 0;
 }
